@@ -300,6 +300,49 @@ pub fn render(s: &Scene) -> Result<Vec<u8>, String> {
   Ok(v.get_visible_buffer().to_vec())
 }
 
+/// The same frame through the whole memory bus: registers written by bus stores, time
+/// delivered to `MemoryAreas::run_clock_cycles`, and OAM transfers started during the frame
+/// from a work-RAM page that holds a byte-for-byte copy of OAM - nothing the frame is
+/// composed from changes, so the presented frame must still be the reference composition.
+#[cfg(not(miri))]
+pub fn render_on_bus(s: &Scene, rng: &mut Rng, transfers: usize) -> Result<(Vec<u8>, usize), String> {
+  use crate::mem::memory_write_byte;
+  let mut mem = crate::support::memory_in_ram(0x00, vec![0u8; 0x8000], 0);
+  let mp = &mut *mem as *mut crate::mem::MemoryAreas;
+  mem.video_ram = s.vram.clone().into_boxed_slice();
+  mem.oam_ram = s.oam.clone().into_boxed_slice();
+  for (i, b) in s.oam.iter().enumerate() {
+    mem.work_ram[0x100 + i] = *b;
+  }
+  for (reg, v) in [(0xff40u16, s.lcdc), (0xff43, s.scx), (0xff42, s.scy), (0xff4b, s.wx), (0xff4a, s.wy), (0xff47, s.bgp), (0xff48, s.obp0), (0xff49, s.obp1)].iter() {
+    memory_write_byte(mp, *reg, *v);
+  }
+  memory_write_byte(mp, 0xff0f, 0);
+  let mut starts: Vec<u64> = (0..transfers).map(|_| 4 * rng.below(65664 / 4)).collect();
+  starts.sort();
+  let mut clocks = 0u64;
+  let mut started = 0usize;
+  loop {
+    while started < starts.len() && starts[started] <= clocks {
+      memory_write_byte(mp, 0xff46, 0xc1);
+      started += 1;
+    }
+    let n = 4 * (1 + rng.below(*rng.clone().pick(&[1u64, 1, 8, 40])) as usize);
+    mem.run_clock_cycles(ClockCycles(n));
+    clocks += n as u64;
+    if mem.io.interrupt_flag.as_u8() & 1 != 0 {
+      break;
+    }
+    if clocks > 3 * 70224 {
+      return Err("no VBlank request within three frame periods".to_string());
+    }
+  }
+  if mem.oam_ram[..] != s.oam[..] {
+    return Err("the transfers from a byte-identical page changed OAM".to_string());
+  }
+  Ok((mem.io.video.get_visible_buffer().to_vec(), started))
+}
+
 pub fn random_scene(rng: &mut Rng, idx: u64) -> Scene {
   let mut vram = vec![0u8; 0x2000];
   // tile data: mixture of random and sparse rows so that transparency occurs
@@ -389,6 +432,10 @@ pub fn run(ctx: &mut Ctx) {
   let mut second_frames = 0u64;
   let mut batched_runs = 0u64;
   let mut lcd_cycles = 0u64;
+  #[allow(unused_mut)]
+  let mut bus_frames = 0u64;
+  #[allow(unused_mut)]
+  let mut bus_transfers = 0u64;
   for i in 0..n {
     if !ctx.mine(i) {
       continue;
@@ -464,6 +511,33 @@ pub fn run(ctx: &mut Ctx) {
         ),
       );
     }
+    // ---- the same scene through the memory bus, with OAM transfers (from a byte-identical
+    // page) in progress during the frame
+    #[cfg(not(miri))]
+    if i % 4 == 1 {
+      let transfers = (i / 4 % 4) as usize;
+      match render_on_bus(&s, &mut rng, transfers) {
+        Ok((got3, started)) => {
+          bus_frames += 1;
+          bus_transfers += started as u64;
+          pixels += 160 * 144;
+          if let Some(p) = (0..want.len().min(got3.len())).find(|&p| got3[p] != want[p]) {
+            let (x, y) = (p % 160, p / 160);
+            let nbad = (0..want.len().min(got3.len())).filter(|&p| got3[p] != want[p]).count();
+            ctx.violation(
+              &format!("C15:bus{}:layer={}", if started > 0 { ":transfer-in-progress" } else { "" }, ["background", "window", "object"][layer[p] as usize]),
+              &format!(
+                "scene #{} (seed {}) rendered through the memory bus with {} OAM transfer(s) from a byte-identical page during the frame: first differing pixel ({}, {}): presented {} reference {}; {} pixels differ",
+                i, seed, started, x, y, got3[p], want[p], nbad
+              ),
+            );
+          }
+        }
+        Err(e) => {
+          ctx.violation("C15:bus:no-frame", &e);
+        }
+      }
+    }
     // ---- a second frame on the same controller, after the scene was changed during vertical blank
     if thorough || i % 2 == 0 {
       let (s2, kind) = followup_scene(&mut rng, &s, i / 2);
@@ -514,6 +588,8 @@ pub fn run(ctx: &mut Ctx) {
   ctx.count("second-frames-after-a-change-in-vblank", second_frames);
   ctx.count("two-frame-runs-with-time-delivered-in-random-batches", batched_runs);
   ctx.count("two-frame-runs-with-the-display-switched-off-and-on-in-between", lcd_cycles);
+  ctx.count("frames-through-the-memory-bus", bus_frames);
+  ctx.count("oam-transfers-during-those-frames", bus_transfers);
   ctx.count("reference-window-pixels", win_pixels);
   ctx.count("reference-object-pixels", obj_pixels);
 }
